@@ -14,6 +14,9 @@ import DC.Model.Memo
 import DC.Model.Layers
 import DC.Model.Recipes
 import DC.Model.Spec
+import DC.Model.DSpec
+import DC.Model.OSpec
+import DC.Model.DjSpec
 
 open DC
 
@@ -530,6 +533,10 @@ def answerAv (kv : KV) : String :=
 structure DState where
   cache : Cache := {}
   spec : Spec.Dict := []
+  dspec : DSpec.DList := {}
+  jspec : Spec.Dict := []
+  jconf : DjSpec.Conf := {}
+  ospec : DC.ODict := []
   memo : Memo.Store Nat := []
   fan : Fanout := { shards := [] }
   dq : Deque := { cache := {} }
@@ -739,6 +746,42 @@ def runIndexOp (x : Index) (a : LArgs) : Except String (Index × Out) := do
   | "reopen" => pure x.rehandle
   | m => throw s!"index-method:{m}"
 
+/-- one `dsop` line on the reference bounded list of C11 (DC.Model.DSpec): the fields of an `lop
+cls=deque` line, the calls the specification covers -/
+def runDSpecOp (m : DSpec.DList) (cfg : Cfg) (a : LArgs) : Except String (DSpec.DList × Out) := do
+  let idx ← match (a.kv.getD "i" "0").toInt? with | some i => pure i | none => throw "i"
+  match a.m with
+  | "append" => do let v ← needV a; pure (DSpec.append m a.E cfg v false)
+  | "appendleft" => do let v ← needV a; pure (DSpec.append m a.E cfg v true)
+  | "pop" => pure (DSpec.pop m a.E cfg false)
+  | "popleft" => pure (DSpec.pop m a.E cfg true)
+  | "peek" => pure (DSpec.peek m a.E cfg false)
+  | "peekleft" => pure (DSpec.peek m a.E cfg true)
+  | "len" => pure (DSpec.len m)
+  | "clear" => pure (DSpec.clear m)
+  | "getitem" => pure (DSpec.getitem m a.E cfg idx)
+  | "iter" => pure (DSpec.iter m a.E cfg false)
+  | "riter" => pure (DSpec.iter m a.E cfg true)
+  | other => throw s!"dspec-method:{other}"
+
+/-- one `osop` line on the reference insertion-ordered dictionary of C12 (DC.Model.OSpec) -/
+def runOSpecOp (m : DC.ODict) (cfg : Cfg) (a : LArgs) : Except String (DC.ODict × Out) := do
+  match a.m with
+  | "getitem" => pure (OSpec.getitem m a.E cfg a.k)
+  | "setitem" => do let v ← needV a; pure (OSpec.setitem m a.E cfg a.k v)
+  | "delitem" => pure (OSpec.delitem m a.E cfg a.k)
+  | "setdefault" => do let v ← needV a; pure (OSpec.setdefault m a.E cfg a.k v)
+  | "pop" => pure (OSpec.pop m a.E cfg a.k (parseBool (a.kv.getD "hasdefault" "0")))
+  | "popitem" => pure (OSpec.popitem m a.E cfg (parseBool (a.kv.getD "last" "1")))
+  | "peekitem" => pure (OSpec.peekitem m a.E cfg (parseBool (a.kv.getD "last" "1")))
+  | "len" => pure (OSpec.len m)
+  | "iter" => pure (OSpec.iter m a.E cfg true)
+  | "riter" => pure (OSpec.iter m a.E cfg false)
+  | "clear" => pure (OSpec.clear m)
+  | "update" =>
+    if a.ks.length != a.vs.length then throw "update-lengths" else pure (OSpec.update m a.E cfg (a.ks.zip a.vs))
+  | other => throw s!"ospec-method:{other}"
+
 def runDjangoOp (d : Django) (a : LArgs) : Except String (Django × Out) := do
   let d := { d with fan := { d.fan with env := a.env, envMiss := false } }
   let key ← match KV.get? a.kv "key" with
@@ -773,6 +816,29 @@ def runDjangoOp (d : Django) (a : LArgs) : Except String (Django × Out) := do
   | "make_key" => pure (d, .val (d.makeKey key version))
   | m => throw s!"django-method:{m}"
 
+/-- one `jsop` line on the Django-level specification (DC.Model.DjSpec over the reference
+dictionary): the fields of an `lop cls=django` line, the ten calls the specification covers -/
+def runDjSpecOp (m : Spec.Dict) (C : DjSpec.Conf) (cfg : Cfg) (a : LArgs) : Except String (Spec.Dict × Out) := do
+  let key ← match KV.get? a.kv "key" with
+    | none => pure []
+    | some t => match (parsePyVal t).bind strOfPy with | some s => pure s | none => throw "key"
+  let version ← match parseOptInt (a.kv.getD "version" "n") with | some v => pure v | none => throw "version"
+  let t ← match parseTimeout (a.kv.getD "timeout" "d") with | some t => pure t | none => throw "timeout"
+  let delta ← match (a.kv.getD "delta" "1").toInt? with | some d => pure d | none => throw "delta"
+  let step (op : DjSpec.DOp) : Spec.Dict × Out := DjSpec.step m C cfg op
+  match a.m with
+  | "set" => do let v ← needV a; pure (step (.set a.E a.now key v t version a.tag))
+  | "add" => do let v ← needV a; pure (step (.add a.E a.now key v t version a.tag))
+  | "get" => pure (step (.get a.E a.now key version))
+  | "touch" => pure (step (.touch a.E a.now key t version))
+  | "delete" => pure (step (.delete a.E a.now key version))
+  | "pop" => pure (step (.pop a.E a.now key version))
+  | "has_key" => pure (step (.hasKey a.E a.now key version))
+  | "incr" => pure (step (.incr a.E a.now key delta version))
+  | "decr" => pure (step (.decr a.E a.now key delta version))
+  | "clear" => pure (step .clear)
+  | other => throw s!"djspec-method:{other}"
+
 def renderFan (f : Fanout) : String := " || ".intercalate (f.shards.map renderState)
 
 def mkShards (n : Nat) (c : Cfg) (stats : Bool) : List Cache := (Fanout.init n c stats).shards
@@ -789,13 +855,15 @@ def answerLayer (st : DState) (head : String) (kv : KV) : DState × String :=
       match cls with
       | "fanout" => ({ st with fan := { shards := mkShards n c stats } }, "ok")
       | "deque" => ({ st with dq := { cache := { cfg := c, statistics := stats },
-                                      maxlen := (kv.getD "maxlen" "n").toNat? } }, "ok")
-      | "index" => ({ st with ix := { cache := { cfg := c, statistics := stats } } }, "ok")
+                                      maxlen := (kv.getD "maxlen" "n").toNat? },
+                              dspec := { maxlen := (kv.getD "maxlen" "n").toNat? } }, "ok")
+      | "index" => ({ st with ix := { cache := { cfg := c, statistics := stats } }, ospec := [] }, "ok")
       | "django" =>
         let pfx := ((KV.get? kv "prefix").bind parsePyVal).bind strOfPy |>.getD []
         let ver := (kv.getD "version" "1").toInt?.getD 1
         let dt := match kv.getD "deftimeout" "300" with | "n" => none | t => t.toInt?
-        ({ st with dj := { fan := { shards := mkShards n c stats }, keyPrefix := pfx, version := ver, defaultTimeout := dt } }, "ok")
+        ({ st with dj := { fan := { shards := mkShards n c stats }, keyPrefix := pfx, version := ver, defaultTimeout := dt },
+                   jspec := [], jconf := { keyPrefix := pfx, version := ver, defaultTimeout := dt } }, "ok")
       | _ => (st, "bad-op lcfg-cls")
   | "lstate" =>
     match cls with
@@ -839,6 +907,28 @@ def answer (st : DState) (line : String) : DState × String :=
     match runSpecOp st.spec st.cache.cfg rest with
     | .ok (m, out) => ({ st with spec := m }, "ret " ++ renderOut out)
     | .error e => (st, "bad-op " ++ e)
+  | ("dsop", _) :: rest =>
+    match parseLArgs rest with
+    | .error e => (st, "bad-op " ++ e)
+    | .ok a =>
+      match runDSpecOp st.dspec st.dq.cache.cfg a with
+      | .ok (m, out) => ({ st with dspec := m }, "ret " ++ renderOut out)
+      | .error e => (st, "bad-op " ++ e)
+  | ("jsop", _) :: rest =>
+    match parseLArgs rest with
+    | .error e => (st, "bad-op " ++ e)
+    | .ok a =>
+      let cfg := match st.dj.fan.shards.head? with | some sh => sh.cfg | none => {}
+      match runDjSpecOp st.jspec st.jconf cfg a with
+      | .ok (m, out) => ({ st with jspec := m }, "ret " ++ renderOut out)
+      | .error e => (st, "bad-op " ++ e)
+  | ("osop", _) :: rest =>
+    match parseLArgs rest with
+    | .error e => (st, "bad-op " ++ e)
+    | .ok a =>
+      match runOSpecOp st.ospec st.ix.cache.cfg a with
+      | .ok (m, out) => ({ st with ospec := m }, "ret " ++ renderOut out)
+      | .error e => (st, "bad-op " ++ e)
   | ("lcfg", _) :: rest => answerLayer st "lcfg" rest
   | ("lop", _) :: rest => answerLayer st "lop" rest
   | ("lstate", _) :: rest => answerLayer st "lstate" rest
